@@ -51,6 +51,7 @@ func (k Keeper) handleBridgeHook(ctx sdk.Context, data []byte, hookMaxGas uint64
 
 	// use cache context from here to avoid resetting sequencer number on failure
 	cacheCtx, commit := ctx.CacheContext()
+	events := sdk.EmptyEvents()
 	for _, msg := range tx.GetMsgs() {
 		handler := k.router.Handler(msg)
 		if handler == nil {
@@ -58,15 +59,23 @@ func (k Keeper) handleBridgeHook(ctx sdk.Context, data []byte, hookMaxGas uint64
 			return
 		}
 
-		_, err = handler(cacheCtx, msg)
+		var res *sdk.Result
+		res, err = handler(cacheCtx, msg)
 		if err != nil {
 			reason = fmt.Sprintf("Failed to execute Msg: %s", err)
 			return
 		}
+
+		events = append(events, res.GetEvents()...)
 	}
 
 	commit()
 	success = true
+
+	// the state changes of the hook messages are kept, so their events must be
+	// too: e.g. a token withdrawal initiated by a hook is only ever seen by the
+	// bridge executor through its event.
+	ctx.EventManager().EmitEvents(events)
 
 	return
 }
